@@ -15,6 +15,17 @@ import (
 var deadlines = []time.Duration{50 * time.Millisecond, 0, 2 * time.Second}
 
 func init() {
+	// C11 / C12: while one goroutine's Send waits for queue space (a documented blocking call), other
+	// goroutines' calls on the same socket - Recv with a deadline, option calls - are not held up
+	for _, prop := range []string{"C11", "C12"} {
+		vexplore.Register(prop, func(tier string) []*vexplore.Scenario {
+			return []*vexplore.Scenario{{Name: "other-calls-while-a-send-waits-for-queue-space", Mode: "enum", Reset: kit.ResetGlobals, Body: recvWhileSendWaits,
+				NeedCounters: []string{"recv-timeout-exact-beside-waiting-send"}}}
+		})
+	}
+}
+
+func init() {
 	vexplore.Register("C18", func(tier string) []*vexplore.Scenario {
 		b := 1
 		if tier == "thorough" {
